@@ -601,7 +601,7 @@ func C03() int {
 	r := findings.New("C03")
 	r.Level = "model_checking"
 	defer drive.Cleanup()
-	deadline := r.Deadline(8*time.Minute, 40*time.Minute)
+	deadline := r.Deadline(10*time.Minute, 40*time.Minute)
 	stats := &c03Stats{states: map[string]bool{}, distinct: findings.NewDistinct()}
 	c03Jobs = nil
 	c03Sweeps(r, stats, deadline) // the long programs first
